@@ -164,6 +164,23 @@ def asift(pred, items):
     return (yes, no)
 
 
+_VARARGS = object()
+
+
+def _args_key(args, kwargs, num_positional, arg_names, kwargs_defaults):
+    """Cache key for a call: get_args_tuple() plus the values collected by *args.
+
+    get_args_tuple() lines the positional values up with arg_names, which also lists the
+    keyword-only parameters; positional values beyond the named positional parameters belong to
+    *args and must not take the place of a keyword-only parameter.
+
+    """
+    if len(args) > num_positional:
+        named = get_args_tuple(args[:num_positional], kwargs, arg_names, kwargs_defaults)
+        return named + (_VARARGS, args[num_positional:])
+    return get_args_tuple(args, kwargs, arg_names, kwargs_defaults)
+
+
 def acached_per_instance():
     """Async equivalent of qcore.caching.cached_per_instance().
 
@@ -181,8 +198,10 @@ def acached_per_instance():
         kwargs_defaults = get_kwargs_defaults(argspec)
         cache = {}
 
+        num_positional = len(argspec.args) - 1
+
         def cache_key(args, kwargs):
-            return get_args_tuple(args, kwargs, arg_names, kwargs_defaults)
+            return _args_key(args, kwargs, num_positional, arg_names, kwargs_defaults)
 
         def clear_cache(instance_key, ref):
             del cache[instance_key]
@@ -235,8 +254,10 @@ def alru_cache(maxsize=128, key_fn=None):
         cache_key = key_fn
         if cache_key is None:
 
+            num_positional = len(argspec.args)
+
             def cache_key(args, kwargs):
-                return get_args_tuple(args, kwargs, arg_names, kwargs_defaults)
+                return _args_key(args, kwargs, num_positional, arg_names, kwargs_defaults)
 
         @asynq()
         @functools.wraps(fn)
@@ -423,8 +444,9 @@ def deduplicate(keygetter=None):
             argspec = inspect.getfullargspec(original_fn)
             arg_names = argspec.args + argspec.kwonlyargs
             kwargs_defaults = get_kwargs_defaults(argspec)
-            _keygetter = lambda args, kwargs: get_args_tuple(
-                args, kwargs, arg_names, kwargs_defaults
+            num_positional = len(argspec.args)
+            _keygetter = lambda args, kwargs: _args_key(
+                args, kwargs, num_positional, arg_names, kwargs_defaults
             )
 
         return decorate(DeduplicateDecorator, fun.task_cls, _keygetter)(fun)
